@@ -83,9 +83,11 @@ class World:
         if name == "link":
             # k: bit0 dontdup, then which function
             fn = ("link_directed", "link_undirected", "link_from_to")[(k >> 1) % 3]
-            return ("link", fn, i % nv, j % nv, bool(k & 1), (k >> 3) % 6)
+            # dontdup True / False, or (when False, in a quarter of the cases) the argument is OMITTED (default False)
+            return ("link", fn, i % nv, j % nv, (None if (not k & 1 and (i + j) % 4 == 3) else bool(k & 1)), (k >> 3) % 6)
         if name == "unlink":
-            return ("unlink", i % nv, j % nv, bool(k & 1))
+            # destroy: False / True, or (k % 8 == 7) the argument is OMITTED (the documented default is True)
+            return ("unlink", i % nv, j % nv, None if k % 8 == 7 else bool(k & 1))
         if name in ("al", "rl"):
             if not nl:
                 return None
@@ -209,14 +211,17 @@ class World:
             return None
         if name == "link":
             _, fn, a, b, dd, ci = r
+            kw = {} if dd is None else {"dontdup": dd}
             if fn == "link_from_to":
-                out = explicit.link_from_to(self.vs[a], C.LINK_CLASSES[ci], self.vs[b], dontdup=dd)
+                out = explicit.link_from_to(self.vs[a], C.LINK_CLASSES[ci], self.vs[b], **kw)
             else:
-                out = getattr(explicit, fn)(self.vs[a], self.vs[b], dontdup=dd)
+                out = getattr(explicit, fn)(self.vs[a], self.vs[b], **kw)
             if all(out is not x for x in self.ls):
                 self.ls.append(out)
             return out
         if name == "unlink":
+            if r[3] is None:
+                return explicit.unlink(self.vs[r[1]], self.vs[r[2]])
             return explicit.unlink(self.vs[r[1]], self.vs[r[2]], destroy=r[3])
         if name == "bulk":
             _, a, b, ci, K = r
